@@ -110,7 +110,12 @@ def _template_item(w: Random, c: _Counter, where: str) -> dict:
     n = c.next()
     vf = gen.pick(w, sorted(VARS_FILES))
     tpl = "{{ query }}" if where == "post" else "{{ queries }}"
-    return {"type": "template", "template": tpl + f" t{n}", "vars": VARS_FILES[vf], "_vf": vf}
+    item = {"type": "template", "template": tpl + f" t{n}", "vars": VARS_FILES[vf], "_vf": vf}
+    if gen.chance(w, 0.25):
+        # file based template: the document names the template directory (path) itself
+        item["template"] = "q.j2" if where == "post" else "qs.j2"
+        item["path"] = gen.pick(w, ["@S@/B", "@S@/A", "@S@/A_evil", "@S@"])
+    return item
 
 
 def _post(w: Random, c: _Counter, depth: int) -> dict:
@@ -202,6 +207,15 @@ def generate(streams: core.Streams, tier: str) -> dict:
     if gen.chance(s, 0.3):
         ops.append({"op": "Load", "pipeline": gen.pick(s, loaded), "via": "from_dict",
                     "allow_external_sources": False, "allow_template_vars": False, "vars_allowed_paths": None})
+    for op in ops:
+        if op["op"] == "Load" and op["via"] != "from_dict" and gen.chance(f, 0.15):
+            n = c.next()
+            op["yaml_tag"] = gen.pick(f, [
+                f"smuggled: !!python/object/apply:subprocess.run [[\"echo\", \"yamltag_{n}\"]]",
+                f"smuggled: !!python/object/apply:os.system [\"echo yamltag_{n}\"]",
+                f"smuggled: !!python/object/new:subprocess.Popen [[\"echo\", \"yamltag_{n}\"]]",
+            ])
+            op["yaml_tag_where"] = gen.pick(f, ["vars", "root"])
     fake_faults = {}
     for n in range(1, c.n + 1):
         if gen.chance(f, 0.2):
@@ -236,6 +250,11 @@ class Sim:
         for rel in ("A/ok.py", "A/deep/ok2.py", "A_evil/v.py", "B/evil.py"):
             with open(os.path.join(S, rel), "w") as fh:
                 fh.write(body)
+        for d in ("A", "A_evil", "B", ""):
+            with open(os.path.join(S, d, "q.j2"), "w") as fh:
+                fh.write("{{ query }} file-template")
+            with open(os.path.join(S, d, "qs.j2"), "w") as fh:
+                fh.write("{{ queries }} file-template")
         os.symlink(os.path.join(S, "B", "evil.py"), os.path.join(S, "A", "link.py"))
         os.symlink(os.path.join(S, "B"), os.path.join(S, "A", "sub"))
         open(self.trip, "w").close()
@@ -491,16 +510,27 @@ def execute(scenario: dict) -> dict:
                 grant = {"ext": bool(op["allow_external_sources"]), "vars": bool(op["allow_template_vars"]),
                          "dirs": list(vap_t) if vap_t is not None else None, "op": k}
 
+                def text() -> str:
+                    t = world.dump_yaml([doc])
+                    if op.get("yaml_tag"):
+                        # a python tag in the document text: with a safe loader the load just fails
+                        if op.get("yaml_tag_where") == "vars":
+                            t += "vars:\n  " + op["yaml_tag"] + "\n" if "vars:" not in t else t.replace("vars:\n", "vars:\n  " + op["yaml_tag"] + "\n", 1)
+                        else:
+                            t += op["yaml_tag"] + "\n"
+                        core.merge_counts(faults, {"yaml_python_tag_in_document_text": 1})
+                    return t
+
                 def do() -> str:
                     if op["via"] == "from_dict":
                         objs[pid] = ProcessingPipeline.from_dict(doc, **args)
                     elif op["via"] == "from_yaml":
-                        objs[pid] = ProcessingPipeline.from_yaml(world.dump_yaml([doc]), **args)
+                        objs[pid] = ProcessingPipeline.from_yaml(text(), **args)
                     elif op["via"] == "from_yaml_source_path":
-                        objs[pid] = ProcessingPipeline.from_yaml(world.dump_yaml([doc]), source_path=src_path, **args)
+                        objs[pid] = ProcessingPipeline.from_yaml(text(), source_path=src_path, **args)
                     else:
                         with open(src_path, "w") as fh:
-                            fh.write(world.dump_yaml([doc]))
+                            fh.write(text())
                         objs[pid] = ProcessingPipelineResolver().resolve([src_path])
                     return "loaded"
 
@@ -618,7 +648,7 @@ def _check_load_denial(sc: dict, op: dict, grant: dict, env: dict, res: dict, si
     pid = op["pipeline"]
     doc = sc["pipelines"][pid]
     it = _single(sc, pid, ("template",))
-    if it is None or sc.get("injected", {}).get(pid) or "no_such_item_type" in core.jdump(doc):
+    if it is None or sc.get("injected", {}).get(pid) or "no_such_item_type" in core.jdump(doc) or op.get("yaml_tag"):
         return None  # a document with smuggled keys or a typo may legitimately be rejected for those first
     if any(p.get("type") == "nest" for p in doc.get("postprocessing", [])):
         return None
